@@ -23,6 +23,7 @@ from harness import core, tables_io
 from harness import coder_io as C
 from harness import coderprops as P
 from harness import views_io as V
+from harness import c09gen
 
 PROP = 'C09'
 
@@ -340,6 +341,7 @@ def run(ctx):
     pool = multiprocessing.Pool(min(14, os.cpu_count() or 2))
     try:
         run_shapes(ctx, drv, treq)
+        run_bitmaps(ctx, drv, treq, pool)
         run_generated(ctx, drv, treq, pool)
         run_corpus(ctx, drv, pool)
     finally:
@@ -427,6 +429,59 @@ def run_generated(ctx, drv, treq, pool):
                 ctx.count('wire-fails')
             forced = {k: v for k, v in c.forced}
             check_one(ctx, c.ids, b, obs, model, shrinker=make_shrinker(ctx, drv, treq, c.parts, forced, c.n, c.comp))
+
+
+def run_bitmaps(ctx, drv, treq, pool):
+    """subsets that differ in their bitmaps / attribute counts / replication counts (harness/c09gen.py)"""
+    rng = ctx.rng('bitmaps')
+    count = 300 if ctx.tier == 'quick' else 6000
+    done = 0
+    while done < count:
+        k = min(300, count - done)
+        cases, refused = c09gen.bitmap_cases(drv, treq, rng, k)
+        for c in cases + refused:
+            c.idx += done
+        done += k
+        if refused:
+            ctx.count('bitmap:generator-refused', len(refused))
+        msgs = []
+        for c in cases:
+            js = C.make_message_json(c.ids, P.py_inputs(c.valss), c.comp, edition=c.edition)
+            st, b, _ = C.impl_encode(js)
+            if st != 'ok':
+                ctx.count('bitmap:encoder-refused')
+                continue
+            msgs.append((c, b))
+        obss = pool.map(evaluate, [(b, True) for _, b in msgs], chunksize=8)
+        models = drv.batch([treq] + [views_request(c.ids, o, b) for (c, b), o in zip(msgs, obss)])[1:]
+        for (c, b), obs, model in zip(msgs, obss, models):
+            ctx.case({'ids': c.ids, 'n': c.n, 'compressed': c.comp, 'edition': c.edition, 'forced': c.forced},
+                     nontrivial=obs.get('decode') == 'ok', sample=len(ctx.samples) < 2)
+            ctx.traces += 1
+            ctx.count('bitmap:compressed' if c.comp else 'bitmap:uncompressed')
+            ctx.count('bitmap:tail-' + c.info['tail'])
+            if c.info['counts']:
+                ctx.count('bitmap:replication-counts-' + c.info['counts'])
+            for d in c.info['chain']:
+                ctx.count('bitmap:op%d' % d['kind'])
+                ctx.count('bitmap:%s' % d['mode'])
+                if d['mode'] == 'define':
+                    ctx.count('bitmap:bits-' + d['bits'])
+                ctx.count('bitmap:consumers-' + d['consumers'])
+            if obs.get('decode') != 'ok':
+                ctx.count('bitmap:decode-' + str(obs.get('decode')))
+                continue
+            if obs['wire'] != 'ok':
+                ctx.count('wire-fails')
+            ow = obs.get('owners') or {}
+            ctx.count('bitmap:links', ow.get('links', 0))
+            if ow.get('subsets_differing'):
+                # what the wiring depends on besides the descriptors: same decoded descriptors as the subset before, other links
+                ctx.count('bitmap:same-descriptors-other-links')
+                ctx.count('bitmap:same-descriptors-other-links:op%d' % c.info['chain'][0]['kind'])
+            if ow.get('exempt'):
+                ctx.count('owners-exempt:assoc-over-qa33', ow['exempt'])
+            check_one(ctx, c.ids, b, obs, model, tag='bitmaps')
 
 
 def corpus_item(path):
